@@ -10,7 +10,7 @@ from checks.common import *  # noqa
 PROPERTY = "C02"
 
 
-def h_history(ctx, hist, fr_max, arc_max, aa0, ask, ackpl, send_only, ard="sym", latency=0, driver="full"):
+def h_history(ctx, hist, fr_max, arc_max, aa0, ask, ackpl, send_only, ard="sym", latency=0, driver="full", ackpl_opt=False):
     clock = fresh_env(ctx)
     lite = driver == "lite"
     radio, nrf = new_lite(clock) if lite else new_rf24(clock)
@@ -21,7 +21,9 @@ def h_history(ctx, hist, fr_max, arc_max, aa0, ask, ackpl, send_only, ard="sym",
         if not ackpl:
             return None
         if n not in pl_cache:
-            pl_cache[n] = blist(ctx.bytes("ackpl%d" % n, ackpl))
+            # ackpl_opt: the peer may or may not have loaded an ACK payload for this exchange (an empty ACK otherwise)
+            present = bool(ctx.choice("ackpl_present%d" % n, 2)) if ackpl_opt else True
+            pl_cache[n] = blist(ctx.bytes("ackpl%d" % n, ackpl)) if present else None
         return pl_cache[n]
 
     link = ScriptedLink(lambda n: ctx.bool("ack%d" % n), ack_payload)
@@ -170,7 +172,7 @@ def jobs(tier):
             n += 1
             out.append(Job("send-resend-history", h_history,
                            dict(hist=list(hist), fr_max=fr_max, arc_max=arc_max, aa0=aa0, ask=ask, ackpl=ackpl,
-                                send_only=so, ard="sym" if sym_ard else ards[n % 3]),
+                                send_only=so, ard="sym" if sym_ard else ards[n % 3], **({"ackpl_opt": True} if so == "mix" else {})),
                            cost=(fr_max + 1) * arc_max * len(hist) ** 2 * (0.1 if (ask or not aa0) else 1)
                            * (8 if sym_ard else 1)))
     if tier == "thorough":
